@@ -40,6 +40,13 @@ def check(ctx):
     shapes += [[a, b, c] for a in s3 for b in s3 for c in s3]
     limits = [1, 2, 3, 4, 5, 6, 8, 12, 20, 30] if q else list(range(1, 31)) + [64, 1000]
     cases = [{"kind": "validate", "shape": s, "limits": limits} for s in shapes]
+    # histories of the configured limit: max_elements='auto' reads dask.chunk-size; the same request is repeated under every ordered
+    # pair (thorough: triple) of three settings and must respect the limit in force at each call
+    import itertools as _it
+
+    sizes = ["64 B", "256 B", "4 kB"]
+    for seq in list(_it.permutations(range(3), 2)) + ([] if q else list(_it.permutations(range(3), 3))):
+        cases.append({"kind": "config-history", "seq": list(seq), "sizes": sizes})
     nmax = 24 if q else 40
     cases += [{"kind": "equal", "n": n} for n in range(0, nmax + 1)]
     ctx.run(cases, "run_case", rule="one case per shape (all specs x limits inside) and per n (all m, chunk sizes, starts inside); "
@@ -178,7 +185,40 @@ def run_equal(case):
     return {"viol": v, "obs": obs, "notes": notes}
 
 
+def run_config_history(c):
+    import abtem
+    from abtem.core import chunks as CH
+    from dask.utils import parse_bytes
+
+    viol, tr = [], 0
+    # every history gets shapes of its own, so that nothing an earlier case of this worker process asked for can be remembered
+    u = 1 + sum(k * 3 ** i for i, k in enumerate(c["seq"]))
+    shapes = [(6, 5, 4 + u), (40 + u,), (7, 9 + u), (3, 3, 3, 3 + u)]
+    specs = {1: [("auto",)], 2: [("auto", "auto"), ("auto", -1), (1, "auto")], 3: [("auto", "auto", "auto"), ("auto", -1, -1), (2, "auto", -1)], 4: [("auto", "auto", -1, -1)]}
+    for shape in shapes:
+        for spec in specs[len(shape)]:
+            for step, k in enumerate(c["seq"]):
+                cs = c["sizes"][k]
+                lim = int(parse_bytes(cs) // 4)
+                with abtem.config.set({"dask.chunk-size": cs}):
+                    res = CH.validate_chunks(shape, spec, max_elements="auto", dtype=np.float32)
+                tr += 1
+                if tuple(sum(x) for x in res) != tuple(shape):
+                    viol.append({"key": "config-history/sums", "msg": "chunks %r do not sum to %r" % (res, shape)})
+                fixed, vol = 1, 1
+                for ch, sp in zip(res, spec):
+                    vol *= max(ch)
+                    if sp != "auto":
+                        fixed *= max(ch)
+                if fixed <= lim and vol > lim and len(viol) < 2:
+                    viol.append({"key": "config-history/limit-exceeded", "msg": "shape %r spec %r under dask.chunk-size=%s (limit %d elements) after the settings %r: block volume %d (chunks %r) (%s)" % (
+                        shape, spec, cs, lim, [c["sizes"][j] for j in c["seq"][:step]], vol, res, c)})
+    return {"viol": viol, "obs": "config-history", "nt": True, "tr": tr, "st": tr, "ref": tr}
+
+
 def run_case(case):
+    if case.get("kind") == "config-history":
+        return run_config_history(case)
     viol, outcomes, n_sub, n_nt, notes = [], set(), 0, 0, set()
 
     def add(v):
